@@ -49,24 +49,21 @@ Section BzRead.
     destruct (nbytes >? b_end st - b_pos st) eqn:E.
     2:{ rewrite Z.gtb_ltb in E. apply Z.ltb_ge in E.
         exists st, nbytes, out, false. split; [reflexivity|].
-        repeat split; try assumption; try lia.
-        - rewrite Z.sub_diag, slice_nil_n, app_nil_r. reflexivity.
-        - discriminate.
-        - discriminate.
-        - intros _. left. lia. }
+        split; [exact Hw|]. split; [exact Hp|]. do 2 (split; [reflexivity|]). split; [lia|].
+        split; [rewrite Z.sub_diag, slice_nil_n, app_nil_r; reflexivity|]. split; [lia|]. split; [lia|].
+        split; [discriminate|]. intros _. left. lia. }
     rewrite Z.gtb_ltb in E. apply Z.ltb_lt in E.
     rewrite (take_ok rd st (b_pos st) (b_end st - b_pos st) Hw) by lia.
     set (d := slice (rd_bytes rd) (b_base st + b_pos st) (b_end st - b_pos st)).
     set (st1 := set_bpos st (b_end st)).
     assert (Hw1 : bz_win rd st1) by exact Hw.
-    change (b_send st1) with (b_send st). change (b_end st) with (b_end st1) in E |- *.
+    change (b_send st1) with (b_send st).
     destruct (b_send st) eqn:Hs.
     - (* returns early: the last window is exhausted *)
       exists st1, (nbytes - (b_end st - b_pos st)), (out ++ d), true. split; [reflexivity|].
       destruct Hw as (H0 & H1 & H2 & H3 & H4). specialize (H4 Hs).
-      unfold cur. cbn. repeat split; try assumption; try lia.
-      + unfold d. do 2 f_equal. lia.
-      + discriminate.
+      unfold cur. cbn. split; [exact Hw1|]. split; [lia|]. do 2 (split; [reflexivity|]). split; [lia|].
+      split; [unfold d; do 2 f_equal; lia|]. split; [lia|]. split; [lia|]. split; [intros _; lia|discriminate].
     - pose proof (bz_load_win BUF dec rd st1 0 Hdec Hw1 Hs) as (Hw2 & Hp2 & Hb2 & Hfp2 & Ho2 & _ & Hse2 & Hfull).
       destruct (bz_load dec (rd_bytes rd) st1 0) as [st2 fin] eqn:El. cbn [fst snd] in *.
       change (b_base st1) with (b_base st) in Hb2. change (b_end st1) with (b_end st) in Hb2.
@@ -84,12 +81,10 @@ Section BzRead.
         { rewrite Hb2, Hfull. lia. }
         exists st', nb', out', early. split; [exact Hl|].
         assert (Hc2 : cur st2 = b_base st + b_end st) by (unfold cur; lia).
-        split; [exact Hw'|]. split; [exact Hp'|]. split; [congruence|]. split; [congruence|].
+        split; [exact Hw'|]. split; [exact Hp'|]. split; [rewrite Hfp', Hfp2; reflexivity|]. split; [rewrite Ho', Ho2; reflexivity|].
         split; [unfold cur in *; lia|]. split.
         * rewrite Hout, <- app_assoc. f_equal. unfold d. rewrite Hc2.
-          replace (cur st' - cur st) with ((b_end st - b_pos st) + (cur st' - (b_base st + b_end st))) by (unfold cur; lia).
-          destruct Hw as (H0 & _).
-          rewrite <- slice_app by (unfold cur in *; lia). do 2 f_equal. lia.
+          destruct Hw as (H0 & _). unfold cur in *. apply slice_app'; lia.
         * split; [unfold cur in *; lia|]. split; [exact Hnb0|]. split; assumption.
   Qed.
 
@@ -123,8 +118,8 @@ Section BzRead.
       do 2 eexists. split.
       { rewrite Hnb, Hce, Hd. do 3 f_equal. lia. }
       cbn. split; [exact Hw'|]. split; [exact Hp'|]. split; [exact Ho'|].
-      fold (cur st'). rewrite Hd. split; [lia|]. split; [rewrite Hout, Hce; reflexivity|].
-      split; [rewrite Hce; f_equal; lia|lia].
+      rewrite Hd. unfold cur in *. cbn. split; [lia|]. split; [rewrite Hout, Hce; reflexivity|].
+      split; [f_equal; lia|lia].
     - specialize (He2 eq_refl).
       destruct (nb' >? b_end st' - b_pos st') eqn:E.
       + rewrite Z.gtb_ltb in E. apply Z.ltb_lt in E.
@@ -136,11 +131,7 @@ Section BzRead.
         { rewrite Hd. do 3 f_equal. unfold cur in *. lia. }
         cbn. split; [exact Hw'|]. split; [lia|]. split; [exact Ho'|].
         rewrite Hd. unfold cur in *. split; [cbn; lia|]. split.
-        * rewrite Hout. rewrite Hp0, Z.add_0_r, Z.sub_0_r.
-          destruct Hw as (H0 & _).
-          replace (len (rd_bytes rd) - (b_base st + b_pos st))
-            with ((b_base st' + b_pos st' - (b_base st + b_pos st)) + b_end st') by lia.
-          rewrite <- slice_app by lia. do 2 f_equal. lia.
+        * rewrite Hout. destruct Hw as (H0 & _). apply slice_app'; lia.
         * split; [f_equal; lia|lia].
       + rewrite Z.gtb_ltb in E. apply Z.ltb_ge in E.
         rewrite (take_ok rd st' (b_pos st') nb' Hw') by lia.
@@ -150,9 +141,7 @@ Section BzRead.
         { rewrite Hd. do 3 f_equal. lia. }
         cbn. split; [exact Hw'|]. split; [lia|]. split; [exact Ho'|].
         rewrite Hd. unfold cur in *. split; [cbn; lia|]. split.
-        * rewrite Hout. destruct Hw as (H0 & _).
-          replace (n * rd_size rd) with ((b_base st' + b_pos st' - (b_base st + b_pos st)) + nb') by lia.
-          rewrite <- slice_app by lia. do 2 f_equal. lia.
+        * rewrite Hout. destruct Hw as (H0 & _). apply slice_app'; lia.
         * split; [f_equal; lia|nia].
   Qed.
 
@@ -181,7 +170,7 @@ Section BzRead.
     destruct Hco as [Hal|[Hpe Htail]].
     - (* aligned *)
       assert (Hdw : D / size = read_count rd p n).
-      { unfold read_count. rewrite <- (div_window size (len S) p n Hs Hn Hp0). f_equal. rewrite HD, Hal. lia. }
+      { unfold read_count, nsamp. fold S size. rewrite <- (div_window size (len S) p n Hs Hn Hp0). f_equal. rewrite HD, Hal. lia. }
       assert (Hcs : D / size * size <= D) by (rewrite Z.mul_comm; apply Z.mul_div_le; lia).
       split; [exact Hdw|]. split; [lia|]. split.
       + rewrite Hout, Hal. apply slice_full_prefix; try lia. apply Z.mul_nonneg_nonneg; [apply Z.div_pos|]; lia.
@@ -189,18 +178,18 @@ Section BzRead.
         destruct (Z_le_gt_dec (n * size) (len S - cur st)) as [Hfull|Hshort].
         * assert (D = n * size) by lia.
           assert (Hq : D / size = n) by (rewrite H; apply Z.div_mul; lia).
-          split; [rewrite Hfp', H, Hal; replace (p * size + n * size) with ((p + n) * size) by ring; rewrite Z.div_mul by lia; lia|].
+          split; [rewrite Hfp', Hq, H, Hal; replace (p * size + n * size) with ((p + n) * size) by ring; rewrite Z.div_mul by lia; lia|].
           split; [lia|]. split; [exact Hw'|]. split; [exact Hp'|].
-          left. fold (cur st'). rewrite Hc', H, Hal, Hq. fold size. ring.
+          left. fold (cur st'). rewrite Hc', Hq, H, Hal. fold size. ring.
         * assert (D = len S - cur st) by lia.
           assert (Hq : D / size = nsamp rd - p).
           { rewrite H, Hal. replace (len S - p * size) with (len S + (- p) * size) by ring.
             rewrite Z.div_add by lia. unfold nsamp. fold S size. lia. }
           assert (Hpn : p <= nsamp rd).
           { unfold nsamp. fold S size. apply Z.div_le_lower_bound; lia. }
-          split; [rewrite Hfp', H; replace (cur st + (len S - cur st)) with (len S) by ring; unfold nsamp in *; fold S size in Hq |- *; lia|].
+          split; [rewrite Hfp', Hq, H; replace (cur st + (len S - cur st)) with (len S) by ring; unfold nsamp; fold S size; lia|].
           split; [lia|]. split; [exact Hw'|]. split; [exact Hp'|].
-          right. fold (cur st'). rewrite Hc', H, Hq. fold size S. split; [lia|]. fold S size in Hns1. lia.
+          right. fold (cur st'). rewrite Hc', Hq, H. fold size S. split; [lia|]. lia.
     - (* cursor inside the partial trailing sample *)
       fold S size in Hns1, Hns2. rewrite Hpe in *.
       assert (HDs : 0 <= D < size) by lia.
